@@ -37,9 +37,15 @@ async fn handle_connection(mut socket: TcpStream, controller: Arc<NodeController
         }
 
         let frame_len = u32::from_le_bytes(len_buf) as usize;
-        if frame_len == 0 || frame_len > MAX_FRAME_LEN {
+        if frame_len == 0 {
             send_response(&mut socket, "ERR invalid frame length").await?;
             continue;
+        }
+        if frame_len > MAX_FRAME_LEN {
+            // The announced body is not consumed, so the stream cannot be re-synchronised:
+            // answer and close instead of reading the body bytes as the next frame header.
+            send_response(&mut socket, "ERR invalid frame length").await?;
+            return Ok(());
         }
 
         let mut buf = vec![0u8; frame_len];
